@@ -3,10 +3,12 @@ package sim
 import (
 	"math/big"
 	"math/rand"
+	"reflect"
 	"sort"
 
 	sdkmath "cosmossdk.io/math"
 	sdk "github.com/cosmos/cosmos-sdk/types"
+	"github.com/cosmos/gogoproto/proto"
 
 	ct "github.com/circlefin/noble-cctp/x/cctp/types"
 
@@ -247,13 +249,19 @@ type Gen struct {
 	BigAmts  bool
 	queue    []Tx // transactions scheduled to run next (follow-ups of probes)
 	noSameBlock bool
+	OddAccounts bool // occasionally use valid accounts whose address is 1, 32, 40 or 255 bytes long
 	CycleProbes bool // rollback probes: every kind in turn, alternately queued / same-block
 	probeN      int
 }
 
-func NewGen(e *Engine) *Gen { return &Gen{E: e, R: e.Rc.Rand, inNonce: 1000} }
+func NewGen(e *Engine) *Gen { return &Gen{E: e, R: e.Rc.Rand, inNonce: 1000, OddAccounts: true} }
 
-func (g *Gen) acct() string { return Acct(g.R.Intn(NAccounts)) }
+func (g *Gen) acct() string {
+	if g.OddAccounts && g.R.Intn(25) == 0 {
+		return []string{TinyAcct(), HugeAcct(), LongAcct(), VeryLongAcct()}[g.R.Intn(4)]
+	}
+	return Acct(g.R.Intn(NAccounts))
+}
 
 func (g *Gen) amount() *big.Int {
 	r := g.R
@@ -450,7 +458,127 @@ func (g *Gen) Next() Tx {
 	for i := 0; i < nm; i++ {
 		msgs = append(msgs, g.one(m, perturb))
 	}
+	if nm == 1 {
+		switch r.Intn(24) {
+		case 0: // the same request twice in one transaction (a second operation on the same key)
+			if c := cloneMsg(msgs[0]); c != nil {
+				return Tx{Msgs: []sdk.Msg{msgs[0], c}, Note: "same request twice in one transaction"}
+			}
+		case 1: // a request and its inverse in one transaction
+			if inv := inverseOf(msgs[0], m); inv != nil {
+				return Tx{Msgs: []sdk.Msg{msgs[0], inv}, Note: "request and its inverse in one transaction"}
+			}
+		case 2: // inverse first
+			if inv := inverseOf(msgs[0], m); inv != nil {
+				return Tx{Msgs: []sdk.Msg{inv, msgs[0]}, Note: "inverse and request in one transaction"}
+			}
+		case 3:
+			aliasFields(msgs[0], r)
+		}
+	}
 	return Tx{Msgs: msgs}
+}
+
+func cloneMsg(m sdk.Msg) sdk.Msg {
+	if _, ok := m.(AbsentField); ok {
+		return nil
+	}
+	bz, err := proto.Marshal(m)
+	if err != nil {
+		return nil
+	}
+	c, ok := reflect.New(reflect.TypeOf(m).Elem()).Interface().(sdk.Msg)
+	if !ok || proto.Unmarshal(bz, c) != nil {
+		return nil
+	}
+	return c
+}
+
+// inverseOf returns the administrative request that undoes m (by the same submitter), or nil.
+func inverseOf(m sdk.Msg, st *State) sdk.Msg {
+	switch x := m.(type) {
+	case *ct.MsgEnableAttester:
+		return &ct.MsgDisableAttester{From: x.From, Attester: x.Attester}
+	case *ct.MsgDisableAttester:
+		return &ct.MsgEnableAttester{From: x.From, Attester: x.Attester}
+	case *ct.MsgLinkTokenPair:
+		return &ct.MsgUnlinkTokenPair{From: x.From, RemoteDomain: x.RemoteDomain, RemoteToken: x.RemoteToken, LocalToken: x.LocalToken}
+	case *ct.MsgUnlinkTokenPair:
+		return &ct.MsgLinkTokenPair{From: x.From, RemoteDomain: x.RemoteDomain, RemoteToken: x.RemoteToken, LocalToken: x.LocalToken}
+	case *ct.MsgAddRemoteTokenMessenger:
+		return &ct.MsgRemoveRemoteTokenMessenger{From: x.From, DomainId: x.DomainId}
+	case *ct.MsgRemoveRemoteTokenMessenger:
+		addr := st.Messengers[x.DomainId]
+		if len(addr) != 32 {
+			addr = Messenger(x.DomainId, 3)
+		}
+		return &ct.MsgAddRemoteTokenMessenger{From: x.From, DomainId: x.DomainId, Address: addr}
+	case *ct.MsgPauseBurningAndMinting:
+		return &ct.MsgUnpauseBurningAndMinting{From: x.From}
+	case *ct.MsgUnpauseBurningAndMinting:
+		return &ct.MsgPauseBurningAndMinting{From: x.From}
+	case *ct.MsgPauseSendingAndReceivingMessages:
+		return &ct.MsgUnpauseSendingAndReceivingMessages{From: x.From}
+	case *ct.MsgUnpauseSendingAndReceivingMessages:
+		return &ct.MsgPauseSendingAndReceivingMessages{From: x.From}
+	case *ct.MsgUpdateOwner:
+		return &ct.MsgAcceptOwner{From: x.NewOwner}
+	}
+	return nil
+}
+
+// aliasFields makes two fields of one request carry the same value (valid, but structurally unusual).
+func aliasFields(m sdk.Msg, r *rand.Rand) {
+	switch x := m.(type) {
+	case *ct.MsgSendMessage:
+		if r.Intn(2) == 0 {
+			x.MessageBody = append([]byte(nil), x.Recipient...)
+		} else if ab := addrBytes(x.From); len(ab) == 20 {
+			x.Recipient = ref.Pad32(ab)
+		}
+	case *ct.MsgSendMessageWithCaller:
+		switch r.Intn(3) {
+		case 0:
+			x.DestinationCaller = append([]byte(nil), x.Recipient...)
+		case 1:
+			if ab := addrBytes(x.From); len(ab) == 20 {
+				x.DestinationCaller = ref.Pad32(ab)
+			}
+		default:
+			// a body that looks like a whole message
+			if len(x.Recipient) != 32 || len(x.DestinationCaller) != 32 {
+				return
+			}
+			in := &InMsg{Version: 0, Src: 4, Dst: x.DestinationDomain, Nonce: 1, Sender: x.Recipient, Recipient: x.Recipient, Caller: x.DestinationCaller, Body: []byte("nested")}
+			x.MessageBody = in.Bytes()
+		}
+	case *ct.MsgDepositForBurn:
+		if ab := addrBytes(x.From); len(ab) == 20 {
+			x.MintRecipient = ref.Pad32(ab)
+		}
+	case *ct.MsgDepositForBurnWithCaller:
+		if r.Intn(2) == 0 {
+			x.DestinationCaller = append([]byte(nil), x.MintRecipient...)
+		} else if ab := addrBytes(x.From); len(ab) == 20 {
+			x.MintRecipient, x.DestinationCaller = ref.Pad32(ab), ref.Pad32(ab)
+		}
+	case *ct.MsgReplaceMessage:
+		x.NewMessageBody = append([]byte(nil), x.OriginalMessage...)
+	case *ct.MsgReplaceDepositForBurn:
+		x.NewDestinationCaller = append([]byte(nil), x.NewMintRecipient...)
+	case *ct.MsgLinkTokenPair:
+		x.RemoteToken = Messenger(x.RemoteDomain, 0)
+	case *ct.MsgAddRemoteTokenMessenger:
+		x.Address = Token(int(x.DomainId) % NTokens)
+	case *ct.MsgUpdateOwner:
+		x.NewOwner = x.From
+	case *ct.MsgUpdatePauser:
+		x.NewPauser = x.From
+	case *ct.MsgUpdateAttesterManager:
+		x.NewAttesterManager = x.From
+	case *ct.MsgUpdateTokenController:
+		x.NewTokenController = x.From
+	}
 }
 
 func (g *Gen) one(m *State, perturb bool) sdk.Msg {
